@@ -233,7 +233,7 @@ Fixpoint wf (t : gty) (v : gval) {struct t} : bool :=
          end) fs vs
   | TIface _, VIface None => true
   | TSwapId, VSwapId s => (String.length s =? 32)%nat
-  | TOpaque _, _ => true
+  | TOpaque _, VOpaque => true
   | _, _ => false
   end.
 
@@ -253,7 +253,12 @@ Fixpoint nodupb (l : list string) : bool :=
 (* under_ptr: TSwapId's codec is attached to *SwapId, so it must sit directly under a pointer *)
 Fixpoint supported (under_ptr : bool) (t : gty) {struct t} : bool :=
   match t with
-  | TPtr t' => match t' with TPtr _ => false | _ => supported true t' end
+  | TPtr t' =>
+      (* a pointer whose target can itself encode as null would not reload as the same pointer *)
+      match t' with
+      | TStruct _ _ | TSwapId | TBool | TInt _ _ | TStr => supported true t'
+      | _ => false
+      end
   | TStruct _ fs =>
       nodupb (names_of fs) &&
       (fix go (l : list (fmeta * gty)) : bool :=
@@ -269,6 +274,67 @@ Fixpoint supported (under_ptr : bool) (t : gty) {struct t} : bool :=
   | TOpaque _ => false
   | TInt _ bits => (bits =? 8) || (bits =? 16) || (bits =? 32) || (bits =? 64)
   | _ => true
+  end.
+
+(* the nested loops above as separate functions (convertible; used to state lemmas) *)
+Fixpoint zero_fields (l : list (fmeta * gty)) : list gval :=
+  match l with [] => [] | (_, t') :: r => zero t' :: zero_fields r end.
+
+Fixpoint enc_fields (l : list (fmeta * gty)) (ws : list gval) : list (string * json) :=
+  match l, ws with
+  | (m, t') :: r, w :: wr =>
+      if active m && negb (f_omit m && is_empty w)
+      then (f_json m, enc t' w) :: enc_fields r wr
+      else enc_fields r wr
+  | _, _ => []
+  end.
+
+Section SetField.
+  Variables (exact : bool) (k : string) (jv : json).
+  Fixpoint set_field (l : list (fmeta * gty)) (ws : list gval) : option (list gval) :=
+    match l, ws with
+    | (m, t') :: r, w :: wr =>
+        if key_match exact m k
+        then match dec t' w jv with Some w' => Some (w' :: wr) | None => None end
+        else match set_field r wr with Some wr' => Some (w :: wr') | None => None end
+    | _, _ => Some ws
+    end.
+End SetField.
+
+Section Steps.
+  Variable fs : list (fmeta * gty).
+  Fixpoint steps (kvs : list (string * json)) (ws : list gval) : option (list gval) :=
+    match kvs with
+    | [] => Some ws
+    | (k, jv) :: r =>
+        match set_field (has_exact k fs) k jv fs ws with
+        | Some ws' => steps r ws'
+        | None => None
+        end
+    end.
+End Steps.
+
+Fixpoint view_fields (l : list (fmeta * gty)) (ws : list gval) : list gval :=
+  match l, ws with
+  | (m, t') :: r, w :: wr =>
+      (if active m && negb (f_omit m && is_empty w) then view t' w else zero t') :: view_fields r wr
+  | _, _ => []
+  end.
+
+Fixpoint wf_fields (l : list (fmeta * gty)) (ws : list gval) : bool :=
+  match l, ws with
+  | [], [] => true
+  | (m, t') :: r, w :: wr => (if active m then wf t' w else true) && wf_fields r wr
+  | _, _ => false
+  end.
+
+Fixpoint supported_fields (l : list (fmeta * gty)) : bool :=
+  match l with
+  | [] => true
+  | (m, t') :: r =>
+      negb (f_embedded m) &&
+      (if active m then negb (f_quoted m) && utf8_ok (f_json m) && supported false t' else true)
+      && supported_fields r
   end.
 
 (* field access by Go name (used by the monitor and by derived getters) *)
